@@ -263,6 +263,11 @@ func genC17IP(t *rapid.T) c17IP {
 		if rapid.IntRange(0, 3).Draw(t, "noncanon") == 0 {
 			c.Style = rapid.IntRange(0, 3).Draw(t, "style")
 		}
+		if c.V4 != nil && rapid.IntRange(0, 5).Draw(t, "v6_is_mapped_v4") == 2 {
+			// the IPv6 address of the pair is the IPv4-mapped form of the SAME IPv4 address (::ffff:a.b.c.d): two
+			// addresses all the same, 160 bits on the wire
+			c.V6 = append([]byte{0, 0, 0, 0, 0, 0, 0, 0, 0, 0, 0xff, 0xff}, c.V4...)
+		}
 	}
 	return c
 }
